@@ -366,7 +366,7 @@ func init() {
 		Assumptions: []string{"the IR analysis (nullable fixpoint, left-edge calls through groups, captures, lookahead groups, negation operands, unions, every alternative) is the executable reading of 'can re-enter itself before consuming a token'", "Trace does not change parse results (checked by C15)"},
 		Batches:     func(t string) int { return pick(t, 4, 16) },
 		Floor:       func(t string) int { return pick(t, 300, 1200) },
-		TimeoutSec:  func(t string) int { return pick(t, 600, 1800) },
+		TimeoutSec:  func(t string) int { return pick(t, 300, 1800) },
 		Prepare: gramPrepare("C08", func(t string) int { return pick(t, 120, 300) }, c08Opts, func(p *mon.Parent, b int) []*gram.Grammar {
 			return c08Templates(b, p.NBatch)
 		}, false),
